@@ -408,7 +408,7 @@ pub fn mutant_text() -> impl Strategy<Value = (Cfg, String, String)> {
 /// small scripts: assignments whose right-hand side may fail at parse time or at evaluation time (type
 /// mismatch), followed by uses of the name in every operand position
 pub fn script_text() -> impl Strategy<Value = String> {
-    let names = prop::sample::select(vec!["x", "total", "total cost", "rent", "ürün"]);
+    let names = prop::sample::select(vec!["x", "total", "total cost", "rent", "ürün", "q1", "item 2", "tax-rate", "may"]);
     let value = prop::sample::select(vec![
         "5", "-3", "1,5", "0", "1 day", "2 hours", "11:30", "10 usd", "$5", "3 kg", "1 inch", "12/12/2020", "10%", "0x10", "today", "15:00 EST", "1 jan 2021", "2 weeks 3 days", "(", "", "1 +", "* 2", "hello", "99999999999999999999", "1 byte",
     ]);
